@@ -8,6 +8,9 @@ pub type Timer = actual::Timer;
 #[cfg(not(target_arch = "wasm32"))]
 mod actual {
     use super::*;
+    #[cfg(reinterpretcat_vrp_verif)]
+    use super::verif_clock::Instant;
+    #[cfg(not(reinterpretcat_vrp_verif))]
     use std::time::Instant;
 
     #[derive(Clone)]
@@ -93,6 +96,69 @@ mod actual {
 
     fn now() -> Float {
         js_sys::Date::new_0().get_time() as Float
+    }
+}
+
+/// Verification hook: a virtual clock which advances by a fixed tick on every read.
+#[cfg(all(reinterpretcat_vrp_verif, not(target_arch = "wasm32")))]
+pub mod verif_clock {
+    use std::cell::Cell;
+    use std::ops::Sub;
+    use std::time::Duration;
+
+    thread_local! {
+        /// (tick in microseconds, current time in microseconds, amount of reads)
+        static CLOCK: Cell<Option<(u64, u64, u64)>> = const { Cell::new(None) };
+    }
+
+    /// Enables virtual clock on the current thread: each read advances time by `tick_micros`.
+    pub fn enable(tick_micros: u64) {
+        CLOCK.with(|c| c.set(Some((tick_micros, 0, 0))));
+    }
+
+    /// Disables virtual clock on the current thread, returns amount of reads.
+    pub fn disable() -> u64 {
+        CLOCK.with(|c| c.take()).map_or(0, |(_, _, reads)| reads)
+    }
+
+    /// Returns amount of clock reads so far.
+    pub fn reads() -> u64 {
+        CLOCK.with(|c| c.get()).map_or(0, |(_, _, reads)| reads)
+    }
+
+    /// A drop-in replacement of `std::time::Instant`.
+    #[derive(Clone, Copy, Debug)]
+    pub enum Instant {
+        /// A real instant.
+        Real(std::time::Instant),
+        /// A virtual instant in microseconds.
+        Virtual(u64),
+    }
+
+    impl Instant {
+        /// Returns current time: virtual, if the virtual clock is enabled.
+        pub fn now() -> Self {
+            CLOCK.with(|c| match c.get() {
+                Some((tick, time, reads)) => {
+                    let time = time + tick;
+                    c.set(Some((tick, time, reads + 1)));
+                    Instant::Virtual(time)
+                }
+                None => Instant::Real(std::time::Instant::now()),
+            })
+        }
+    }
+
+    impl Sub for Instant {
+        type Output = Duration;
+
+        fn sub(self, rhs: Self) -> Self::Output {
+            match (self, rhs) {
+                (Instant::Real(lhs), Instant::Real(rhs)) => lhs - rhs,
+                (Instant::Virtual(lhs), Instant::Virtual(rhs)) => Duration::from_micros(lhs.saturating_sub(rhs)),
+                _ => panic!("mixing real and virtual time"),
+            }
+        }
     }
 }
 
